@@ -6,7 +6,6 @@ from tools import vlib
 
 
 FINDING_SERDE_REFS = "serde/handoff-reference-tokens-lost"
-FINDING_SELF_LOOP = "rewrite/self-loop-unary-node-panic"
 
 
 def ids(g):
@@ -16,7 +15,7 @@ def ids(g):
 def unary_union_tee(g):
     return sorted(n["id"] for n in g["nodes"]
                   if n["k"] == "op" and n["name"] in ("union", "tee") and n["has_inst"]
-                  and len(n["preds"]) == 1 and len(n["succs"]) == 1)
+                  and len(n["preds"]) == 1 and len(n["succs"]) == 1 and n["preds"][0][1] != n["id"])
 
 
 class C20(vlib.Spec):
@@ -78,7 +77,7 @@ class C20(vlib.Spec):
             term = "0"
             for t in terms:
                 term = "N.lor (%s) (%s)" % (t, term)
-            return "N.lor (%s) %d" % (term, (2 | 32) if selfloop else 2)
+            return "N.lor (%s) 2" % term  # no rewrite may panic any more (cf4f5db4389)
         # merge_modules
         mbs = [n["id"] for n in res["with_mb"]["nodes"] if n["k"] == "mb"]
         if res["merge"] == "ok":
@@ -99,7 +98,8 @@ class C20(vlib.Spec):
         pieces.append("c20_rewrite %s %s %s" % (G(be), vlib.g_list("%d" % x for x in removed), G(ae)))
         # the multi-step model (unary unions first, then unary tees, in node order) predicts the result
         order = [n["id"] for nm in ("union", "tee") for n in be["nodes"]
-                 if n["k"] == "op" and n["name"] == nm and n["has_inst"] and len(n["preds"]) == 1 and len(n["succs"]) == 1]
+                 if n["k"] == "op" and n["name"] == nm and n["has_inst"] and len(n["preds"]) == 1 and len(n["succs"]) == 1
+                 and n["preds"][0][1] != n["id"]]
         pieces.append("c20_elim_model %s %s %s" % (G(be), vlib.g_list("%d" % x for x in order), G(ae)))
         rt = res["roundtrip"]
         if isinstance(rt, dict) and "orig" in rt:
@@ -132,8 +132,6 @@ class C20(vlib.Spec):
 
     def finding_key(self, case, res):
         v = self.verdicts.get(vlib.case_hash(case))
-        if v == (2 | 32):
-            return FINDING_SELF_LOOP
         return FINDING_SERDE_REFS if v == (2 | 8) else None
 
     def shrink(self, case):
